@@ -312,7 +312,7 @@ class _Args:
 
 class P(Prop):
     id = "C18"
-    quick_cases = 3000
+    quick_cases = 2000
     thorough_cases = 60000
     chunk = 500
     rule = (
